@@ -88,6 +88,19 @@ struct Run {
 
 // executes one workload step; when a fault fired during it the public call must have failed (rc<0)
 // and an immediate retry (no fault is scheduled for the next call number) must succeed exactly
+
+// which fragments a decode / rebuild step withholds: the chosen one alone, or (wide-parity shapes always, the others in
+// a quarter of the steps) as many as the code tolerates, highest parity first - so that failures also happen with long
+// lists of missing fragments
+static std::vector<bool> erased_set(const Config &g, int lost, int salt) {
+    int n = g.n(), t = ref::tolerance(g);
+    std::vector<bool> gone(n, false);
+    gone[lost] = true;
+    int ne = (g.m >= 8 || salt % 4 == 3) ? t : 1;
+    for (int i = n - 1, c = 1; i >= 0 && c < ne; i--) if (!gone[i]) { gone[i] = true; c++; }
+    return gone;
+}
+
 static void do_step(Run &R, int w, int salt) {
     Result &r = R.r;
     const Config &g = R.g;
@@ -126,7 +139,8 @@ static void do_step(Run &R, int w, int salt) {
             if (g.m < 1) return;
             int lost = w == W_DECODE_DATA ? salt % g.k : g.k + salt % g.m;
             std::vector<const std::vector<uint8_t> *> frs; uint64_t pm = 0;
-            for (int i = 0; i < n; i++) if (i != lost) { frs.push_back(&R.s.frags[i]); pm |= 1ull << i; }
+            std::vector<bool> gone = erased_set(g, lost, salt);
+            for (int i = 0; i < n; i++) if (!gone[i]) { frs.push_back(&R.s.frags[i]); pm |= 1ull << i; }
             std::vector<int> al(frs.size(), 0);
             for (size_t ai = 0; ai < al.size(); ai++) al[ai] = ((salt + (int)ai) % 3 == 0) ? 1 + (salt + (int)ai) % 15 : 0;     // some unaligned inputs: the library re-aligns into buffers it must free on the failure path too
             FragSet fs; fs.build(frs, al);
@@ -143,7 +157,8 @@ static void do_step(Run &R, int w, int salt) {
             if (R.desc <= 0 || R.s.rc != 0 || R.s.frags.empty() || g.m < 1) return;
             int lost = w == W_RECON_DATA ? salt % g.k : g.k + salt % g.m;
             std::vector<const std::vector<uint8_t> *> frs; uint64_t pm = 0;
-            for (int i = 0; i < n; i++) if (i != lost) { frs.push_back(&R.s.frags[i]); pm |= 1ull << i; }
+            std::vector<bool> gone = erased_set(g, lost, salt);
+            for (int i = 0; i < n; i++) if (!gone[i]) { frs.push_back(&R.s.frags[i]); pm |= 1ull << i; }
             std::vector<int> al(frs.size(), 0);
             for (size_t ai = 0; ai < al.size(); ai++) al[ai] = ((salt + (int)ai) % 3 == 0) ? 1 + (salt + (int)ai) % 15 : 0;     // some unaligned inputs: the library re-aligns into buffers it must free on the failure path too
             FragSet fs; fs.build(frs, al);
@@ -272,6 +287,8 @@ static std::vector<Config> fault_configs() {
     { Config g; g.backend = ref::B_RS; g.k = 4; g.m = 3; g.hd = 3; g.ct = CT_CRC32; v.push_back(g); }
     { Config g; g.backend = ref::B_XOR; g.k = 6; g.m = 5; g.hd = 3; g.ct = CT_NONE; v.push_back(g); }
     { Config g; g.backend = ref::B_NULL; g.k = 3; g.m = 2; g.hd = 2; g.ct = CT_NONE; v.push_back(g); }
+    { Config g; g.backend = ref::B_RS; g.k = 2; g.m = 30; g.hd = 30; g.ct = CT_NONE; v.push_back(g); }         // wide parity: up to 30 fragments missing at once
+    { Config g; g.backend = ref::B_RS; g.k = 9; g.m = 23; g.hd = 23; g.ct = CT_CRC32; v.push_back(g); }
     if (isa_available()) {
         { Config g; g.backend = ref::B_ISA_C; g.k = 5; g.m = 3; g.hd = 3; g.ct = CT_CRC32; v.push_back(g); }
         { Config g; g.backend = ref::B_ISA_V; g.k = 3; g.m = 2; g.hd = 2; g.ct = CT_NONE; v.push_back(g); }
